@@ -396,6 +396,46 @@ func (e *apiEnv) genTxn() {
 	}
 }
 
+// txnShape sends one transaction of a fixed shape to the leader: nc comparisons (EQUAL "v" on a 3-byte key -
+// false on every table this mode builds, whose values are all made of "w"), and operations given as
+// "r"ange / "p"ut / "d"elete on 3-byte keys.  Which branch runs and whether the transaction goes through the
+// log or the read path must not matter to the outcome: the request is valid and the server stays up.
+func (e *apiEnv) txnShape(nc int, succ, fail string) {
+	rq := &regattapb.TxnRequest{Table: []byte("t1")}
+	var sb strings.Builder
+	fmt.Fprintf(&sb, "%d", nc)
+	for i := 0; i < nc; i++ {
+		rq.Compare = append(rq.Compare, &regattapb.Compare{Key: kOf(3), Result: regattapb.Compare_EQUAL, Target: regattapb.Compare_VALUE, TargetUnion: &regattapb.Compare_Value{Value: []byte("v")}})
+		sb.WriteString(" 3 0")
+	}
+	ops := func(spec string) []*regattapb.RequestOp {
+		var out []*regattapb.RequestOp
+		fmt.Fprintf(&sb, " %d", len(spec))
+		for _, c := range spec {
+			switch c {
+			case 'r':
+				out = append(out, &regattapb.RequestOp{Request: &regattapb.RequestOp_RequestRange{RequestRange: &regattapb.RequestOp_Range{Key: kOf(3)}}})
+				sb.WriteString(" r 3 0")
+			case 'p':
+				out = append(out, &regattapb.RequestOp{Request: &regattapb.RequestOp_RequestPut{RequestPut: &regattapb.RequestOp_Put{Key: kOf(3), Value: []byte("w")}}})
+				sb.WriteString(" p 3 1")
+			case 'd':
+				out = append(out, &regattapb.RequestOp{Request: &regattapb.RequestOp_RequestDeleteRange{RequestDeleteRange: &regattapb.RequestOp_DeleteRange{Key: kOf(3)}}})
+				sb.WriteString(" d 3 0")
+			}
+		}
+		return out
+	}
+	rq.Success = ops(succ)
+	rq.Failure = ops(fail)
+	before := e.digest()
+	ctx, cancel := ctxT()
+	_, err := e.lkv.Txn(ctx, rq)
+	cancel()
+	e.recordW(fmt.Sprintf("req L txn %s %s", hx(rq.Table), sb.String()), before, err, string(rq.Table))
+	e.out.Count("txn_shape")
+}
+
 var hostileNames = [][]byte{
 	[]byte(""), []byte("a/b"), []byte("a/lease"), []byte("sys/idseq"), []byte("a\x00b"), bytes.Repeat([]byte("n"), 200), bytes.Repeat([]byte("n"), 201),
 	bytes.Repeat([]byte("n"), 300), []byte("caf\xc3\xa9"), []byte("bad\xff\xfe"), []byte("\xed\xa0\x80"), []byte("\xc0\xaf"), []byte("..")[:2], []byte("a b"), []byte("t1"), []byte("nope"),
@@ -577,6 +617,13 @@ func hAPI(dir string) {
 		e.genTables()
 	}
 	e.forceName = nil
+	// every combination of "reads only" / "writes" / "nothing" in the two branches, with the comparison false
+	// and true, in every run (the routing of transactions between the log and the read path)
+	for _, nc := range []int{1, 0} {
+		for _, sh := range [][2]string{{"r", "p"}, {"p", "r"}, {"", "p"}, {"p", ""}, {"rr", "rd"}, {"r", "r"}, {"", ""}} {
+			e.txnShape(nc, sh[0], sh[1])
+		}
+	}
 	// some content
 	for i := 0; i < 6; i++ {
 		ctx, cancel := ctxT()
